@@ -27,8 +27,6 @@ func init() {
 	nop := func(in *Interp, fr *frame, args []value) value { return nil }
 	for _, n := range []string{
 		"runtime.KeepAlive", "runtime.SetFinalizer", "runtime.GC", "runtime.Gosched", "runtime.LockOSThread", "runtime.UnlockOSThread",
-		"(*sync.Mutex).Lock", "(*sync.Mutex).Unlock", "(*sync.RWMutex).Lock", "(*sync.RWMutex).Unlock", "(*sync.RWMutex).RLock", "(*sync.RWMutex).RUnlock",
-		"(*sync.WaitGroup).Add", "(*sync.WaitGroup).Done", "(*sync.WaitGroup).Wait",
 		"internal/race.Acquire", "internal/race.Release", "internal/race.ReleaseMerge", "internal/race.Disable", "internal/race.Enable",
 		"internal/race.Read", "internal/race.Write", "internal/race.ReadRange", "internal/race.WriteRange",
 		"internal/godebug.registerMetric", "internal/godebug.setUpdate", "internal/godebug.setNewIncNonDefault",
